@@ -7,6 +7,7 @@ import GenlmModel.Proofs.IncCky
 import GenlmModel.Proofs.EarleyQ
 import GenlmModel.Proofs.EndToEnd
 import GenlmModel.Proofs.GapMaterialize
+import GenlmModel.Proofs.EarleyRescaled
 /-! # C02 — every parser returns the derivation-sum weight of a string
 Headline statements only (proofs live in `Proofs/`).  `WN G n X x` is the sum of the weights of the
 derivation trees of height ≤ n of `x` from `X`; all statements hold in EVERY commutative semiring
@@ -98,4 +99,15 @@ alias materialize_lists_exactly_nonzero_strings := Genlm.materialize_cnfL
 alias materialize_on_cnf := Genlm.mem_materializeOf
 alias materialize_general_semiring := Genlm.mem_materializeOf_general
 alias language_values := Genlm.wlook_language
+
+/-! ## the RESCALED Earley parser (model of parse/earley_rescaled.py: per-column coefficients, SCAN multiplies, `__call__` divides) -/
+/-- every chart entry of the rescaled run is the plain run's entry times the product of the coefficients of its span — any
+non-zero coefficients -/
+alias rescaled_scaling_invariant := Genlm.earleyRescaled_invariant
+/-- `__call__` undoes the scaling exactly: same value as the plain parser, hence the derivation sum; no viability hypothesis -/
+alias rescaled_call_eq_plain := Genlm.earleyRescaled_call
+alias rescaled_call_is_derivation_sum := Genlm.earleyRescaled_correct
+alias rescaled_any_coefficients_correct := Genlm.earleyRescaled_const_correct
+/-- the code's own coefficients are never zero (it never divides by zero) -/
+alias rescaled_coefficients_nonzero := Genlm.rescaleChoice_ne_zero
 end Genlm.Props.C02
